@@ -5,7 +5,9 @@
 prop=$1; patch=$2; tier=${3:-quick}
 WT=$(mktemp -d /tmp/try.XXXXXX)/wt
 git -C /repo worktree add --detach $WT HEAD -q
-git -C $WT apply "$patch" || { echo "PATCH DOES NOT APPLY"; git -C /repo worktree remove --force $WT; exit 3; }
+git -C $WT apply "$patch" 2>/dev/null || git -C $WT apply --3way "$patch" 2>/dev/null || { echo "PATCH DOES NOT APPLY"; git -C /repo worktree remove --force $WT; exit 3; }
+# optional: does the stored demonstration still fail on HEAD + patch?  (DEMO=/path/to/demo.py)
+if [ -n "$DEMO" ]; then (cd $WT; timeout 900 /venv/bin/python "$DEMO" >/dev/null 2>&1; echo "DEMO exit=$?"); fi
 cp /verif/evidence/$prop.json /tmp/ev_$prop.$$.bak 2>/dev/null
 cd /verif && VERIF_REPO=$WT timeout 3000 ./check $prop --tier $tier 2>&1 | grep -E "^(VIOLATION|OK|KNOWN|TOOL)" | cut -c1-220
 rc=${PIPESTATUS[0]}
